@@ -986,6 +986,52 @@ class ExtMixin(object):
         d.default_factory = args[0] if args and not (isinstance(args[0], Const) and args[0].v is None) else None
         return d
 
+    def x_collections_Counter(self, args, kwargs, node, env):
+        """Counter(iterable of concrete hashable items): a dictionary item -> count in first-occurrence order; a missing
+        item counts 0 (Counter.__missing__)"""
+        if kwargs or len(args) > 1:
+            self.err(node, "collections.Counter arguments")
+        d = DictV()
+        d.default_factory = ExtV("builtins.int")
+        d.counter = True
+        if args:
+            seq = self.as_iterable(args[0], node)
+            if not (isinstance(seq, ListV) and not getattr(seq, "tail", None)) or not all(concrete_key(x) for x in seq.items):
+                self.err(node, "collections.Counter over %r" % (args[0],))
+            for x in seq.items:
+                k = x.key()
+                n = d.items[k][1].const() if k in d.items else 0
+                d.items[k] = (x, Num(ep.const(n + 1)))
+        return d
+
+    def x_type(self, args, kwargs, node, env):
+        if kwargs or len(args) != 1:
+            self.err(node, "type() with %d arguments" % len(args))
+        v = args[0]
+        if isinstance(v, InstV) and v.label is None:
+            return ClassV(v.ci)
+        if is_strlike(v):
+            return ExtV("builtins.str")
+        if isinstance(v, Const) and isinstance(v.v, bool):
+            return ExtV("builtins.bool")
+        if isinstance(v, Const) and v.v is None:
+            return ExtV("builtins.NoneType")
+        if isinstance(v, ListV):
+            return ExtV("builtins." + {"list": "list", "tuple": "tuple", "set": "set"}.get(v.kind, "list"))
+        if isinstance(v, DictV):
+            return ExtV("builtins.dict")
+        if isinstance(v, NTV):
+            return v.cls
+        if isinstance(v, ExcV):
+            return v.cls
+        self.err(node, "type(%r)" % (v,))
+
+    def x_functools_wraps(self, args, kwargs, node, env):
+        """functools.wraps(f): a decorator that copies f's name and documentation onto the wrapper and returns the wrapper"""
+        if kwargs or len(args) != 1:
+            self.err(node, "functools.wraps arguments")
+        return PyObjV(_Wraps(args[0]))
+
     def x_staticmethod(self, args, kwargs, node, env):
         return StaticV(args[0])
 
@@ -1435,6 +1481,20 @@ class _Memo(object):
             raise AnalysisError("cache_clear arguments")
         self.memo.clear()
         return NONE
+
+
+class _Wraps(object):
+    def __init__(self, wrapped):
+        self.wrapped = wrapped
+
+    def m___call__(self, I, args, kwargs):
+        if kwargs or len(args) != 1:
+            raise AnalysisError("functools.wraps(...) applied to %r" % (args,))
+        w = args[0]
+        if isinstance(w, FuncV) and isinstance(self.wrapped, FuncV):
+            w.attrs["__wrapped__"] = self.wrapped
+            w.attrs["__name__"] = Const(self.wrapped.fi.name)
+        return w
 
 
 class _MemoDecorator(object):
